@@ -208,7 +208,11 @@ fn run_session(pie: &mut Pie<Trk>, scn: &Scenario, acts: &[Act], probe: bool) {
     if let Ok(n) = catch_unwind(AssertUnwindSafe(|| session.dependency_check_errors().len() as i64)) { nerr = n; }
   }
   let res: Vec<i64> = (1..=scn.nr as i64).map(|r| get_res(pie, scn, r)).collect();
-  let dump = dump_store(pie);
+  // the dump walks all three encodings of the edge set; if they disagree the library's own accessors panic
+  let dump = match catch_unwind(AssertUnwindSafe(|| dump_store(pie))) {
+    Ok(d) => d,
+    Err(_) => json!({"tasks":[],"ress":[],"ranks":[],"failed":true}),
+  };
   let (d, c) = world::with(|w| (w.digest, w.count));
   let evt = dump_event_tracker(&pie.tracker().1 .0, scn);
   let ranks = dump["ranks"].clone();
